@@ -14,7 +14,7 @@
    SetSpliceCountdown, SetTransportPrivateData, SetAdaptationFieldExtension, Packet.SetAdaptationField) are
    covered by step_refines and therefore by the history theorem; nothing is _partial there. *)
 From Gots Require Import Base.Prelude Model.Pcr Model.AF Model.AFfn Spec.AFSpec
-  Proofs.AFLists Proofs.PcrBytes Proofs.AFHistory Proofs.AFGetters Proofs.AFExamples Proofs.AFTotal Proofs.AFLastSet Proofs.AFFrame.
+  Proofs.AFLists Proofs.PcrBytes Proofs.AFHistory Proofs.AFGetters Proofs.AFExamples Proofs.AFTotal Proofs.AFLastSet Proofs.AFFrame Model.AFPinned Proofs.AFPinnedRefuted.
 
 (* one call: Ok => the bytes are the serialisation of the updated logical value (same header, same payload,
    same adaptation_field_length); Err => the operation cannot be honoured (and the packet is untouched, see
@@ -153,6 +153,22 @@ Print Assumptions C03_total_any_packet.
 Theorem C03_getters_total_any_packet : forall p, length p = 188%nat -> getters_total p.
 Proof. exact getters_total_any. Qed.
 Print Assumptions C03_getters_total_any_packet.
+
+(* The defects F5 and F6 of the PINNED tree, re-established on a transliteration of the pinned functions
+   (Model/AFPinned.v): on these well-formed packets the pinned code breaks the refinement resp. refuses a call whose
+   result fits.  The witnesses are corpus/C03/known-defects.txt lines 1 and 5; /repo answers exactly what
+   AFPinned computes (notes/findings/C03.md), the repaired code (AF.*) satisfies the theorems above. *)
+Theorem C03_F5_pinned_refuted : exists p l hdr pay p', repr p l hdr pay /\
+  AFPinned.SetHasTransportPrivateData p false = Ok p' /\
+  ~ (exists l', op_rel l (AF.OSetHasTPD false) (Done l') /\ repr p' l' hdr pay).
+Proof. exact F5_refuted. Qed.
+Print Assumptions C03_F5_pinned_refuted.
+Theorem C03_F6_pinned_refuted : exists p l hdr pay d, repr p l hdr pay /\ is_bytes d /\
+  (exists l', op_rel l (AF.OSetTPD d) (Done l')) /\
+  AFPinned.SetTransportPrivateData p d = Err E.AdaptationFieldCannotGrow /\
+  (exists p', AF.SetTransportPrivateData p d = Ok p').
+Proof. exact F6_refuted. Qed.
+Print Assumptions C03_F6_pinned_refuted.
 
 (* non-vacuity: a populated field next to a payload satisfies the hypotheses, and a history that removes
    populated private data, refills to capacity and is refused one byte later behaves as stated *)
